@@ -503,7 +503,7 @@ func verifBoltRun(nOps int, narrow bool) {
 //verif:harness prop=C17 tier=quick replay=interp require=done bounds="BoltChainDB over the bbolt contract model; 1 bucket, 2 distinct arbitrary 1-byte keys, values of 0 or 1 byte, every sequence of 4 ops from {put,delete,flush,cancel,create-bucket-again}; Get+Iter after every op; the committed file content after every op; then Close"
 func VerifH_C17_bolt() { verifBoltRun(4, false) }
 
-//verif:harness prop=C17 tier=quick replay=interp require=done bounds="as VerifH_C17_bolt with 7-operation sessions over the one-key alphabet {put,delete,flush,cancel}"
+//verif:harness prop=C17,C03 tier=quick replay=interp require=done bounds="as VerifH_C17_bolt with 7-operation sessions over the one-key alphabet {put,delete,flush,cancel}"
 func VerifH_C17_bolt_long() { verifBoltRun(7, true) }
 
 //verif:harness prop=C17 tier=thorough replay=interp require=done bounds="as VerifH_C17_bolt with sequences of 5 ops"
